@@ -20,7 +20,7 @@ import os
 import token
 import tokenize
 
-from cutplace import _compat
+from cutplace import _compat, errors
 
 #: Mapping for value of :option:`--log` to logging level.
 LOG_LEVEL_NAME_TO_LEVEL_MAP = {
@@ -72,7 +72,12 @@ def validated_python_name(name, value):
 
 
 def generated_tokens(text):
-    toky = list(tokenize.generate_tokens(_compat.token_io_readline(text)))
+    try:
+        toky = list(tokenize.generate_tokens(_compat.token_io_readline(text)))
+    except (tokenize.TokenError, SyntaxError) as error:
+        raise errors.InterfaceError(
+            "cannot split %s into tokens: %s" % (_compat.text_repr(text), error), cause=error
+        )
     if len(toky) >= 2 and is_newline_token(toky[-2]) and is_eof_token(toky[-1]):
         # HACK: Remove newline that generated_tokens() adds starting with Python 3.x but not before.
         del toky[-2]
